@@ -319,6 +319,8 @@ type runner struct {
 	held     []byte // live slice handed out by the last successful GetClientHello
 	heldCopy []byte
 	lastV    string // verdict/outcome class of the last get
+
+	shortReads int // Reads that returned fewer bytes than the connection had (legal)
 }
 
 func newRunner(s *streamT, scratch []byte) *runner {
@@ -380,15 +382,22 @@ func (r *runner) do(o op) (f *finding) {
 		b := r.buffer(o.N + o.Pad)
 		n, err := r.obj.Read(b)
 		at := r.k
-		r.k += o.N
-		if n != o.N || err != nil {
-			left := len(r.sc.next)
-			r.sc.next = nil
-			return &finding{"read-result-not-passed-through", fmt.Sprintf("lower conn had %d bytes for a caller buffer of %d at offset %d (one Read would return (%d, nil)); wrapper returned (%d, %v) and left %d bytes unread", o.N, len(b), at, o.N, n, err, left)}
+		left := len(r.sc.next)
+		r.sc.next = nil
+		// A Read may return fewer bytes than are there (io.Reader; the TLS layer reads again): what it has not taken
+		// stays with the connection and is offered again by the next operation, the stream position moves by what the
+		// reader above was given. What it may not do: return nothing, return an error, take bytes from the connection
+		// that it does not hand up (the stream above would no longer be complete).
+		if n <= 0 || n > o.N || err != nil || left != o.N-n {
+			r.k += o.N
+			return &finding{"read-result-not-passed-through", fmt.Sprintf("lower conn had %d bytes for a caller buffer of %d at offset %d; wrapper returned (%d, %v) and left %d bytes with the connection", o.N, len(b), at, n, err, left)}
 		}
-		if len(r.sc.next) != 0 {
-			panic(mc.HarnessError{Msg: "scripted conn was not drained by one Read"})
+		r.k += n
+		if n < o.N {
+			r.shortReads++
 		}
+		want = want[:n]
+		o.N = n
 		if !bytes.Equal(b[:o.N], want) {
 			return &finding{"read-bytes-modified", fmt.Sprintf("read of %d bytes at offset %d: reader above got %s, client sent %s", o.N, at, hexHead(b[:o.N]), hexHead(want))}
 		}
